@@ -230,15 +230,19 @@ def some_queries(length, rng, n, touch_choices, below=3, above=3):
         else:
             yield [s, e, rng.randint(1, e - s), rng.randrange(3), m, o, rng.choice(touch_choices)]
 
-def zoom_records(length, rng):
+ZVALS8 = [8, 20, 1, 24, 16, 0]           # bigBed zoom levels hold depth statistics: never negative
+
+def zoom_records(length, rng, vals=VALS8):
     """disjoint zoom records in start order, as a zoom level holds them; sum = mean * bases exactly"""
     recs = []; pos = rng.choice([0, 0, 1])
     while pos < length and len(recs) < 4:
         ln = rng.randint(1, max(1, length // 2))
         end = min(length, pos + ln)
         bases = rng.randint(1, end - pos)
-        mean8 = rng.choice(VALS8)
+        mean8 = rng.choice(vals)
         lo8 = mean8 - rng.choice([0, 8]); hi8 = mean8 + rng.choice([0, 16])
+        if vals is ZVALS8:
+            lo8 = max(lo8, 0)
         recs.append([pos, end, bases, lo8, hi8, mean8 * bases])
         pos = end + rng.choice([0, 0, 1, 2])
     return recs
@@ -246,13 +250,17 @@ def zoom_records(length, rng):
 class C20(Prop):
     ID = "C20"
     HARNESS = "c20"
-    THEOREMS = ["C20_bin_index_spec", "C20_per_base", "C20_bins", "C20_bins_nan_free", "C20_oob"]
+    THEOREMS = ["C20_bin_index_spec", "C20_per_base", "C20_bins", "C20_bins_nan_free", "C20_oob",
+                "C20_zoom_bins", "C20_zoom_step_function", "C20_zoom_missing", "C20_zoom_nan_free", "C20_zoom_oob",
+                "C20_fetch_clamp", "C20_oob_layout"]
     RULE = ("one case = one chromosome (length, value/entry layout) with a batch of queries (s, e, bins, statistic, missing, oob, "
             "reader hands over touching items or not).  Exhaustive block: every layout of <= 3 values (disjoint) / <= 3 entries "
             "(any overlap) on chromosomes of <= 5 bases (quick; <= 6 thorough) x every range [s,e) from 2 below 0 to 2 past the end x "
             "per-base and every bin count 1..e-s x mean/min/max, fill values cycling through 8 (missing, oob) pairs incl. NaN.  "
             "Layout-exhaustive block: every bigWig layout of <= 3 values on 12 bases (quick; thorough adds sampled layouts up to 24 bases) "
-            "and a sample of bigBed layouts, each with sampled queries; a sample of layouts with every query.  Zoom routes sampled.  "
+            "and a sample of bigBed layouts, each with sampled queries; a sample of layouts with every query.  Zoom routes (exact=False): every "
+            "level of <= 2 records on <= 4 bases (5 thorough) x every range x every bin count x 3 statistics through both routines, plus "
+            "sampled levels of <= 4 records on <= 12 (24) bases.  "
             "non-trivial = at least one value/entry and one query; distinct = distinct case text")
     CORRESPONDENCE = ("cells of Model/PyArrays.v values_wig / values_bed / values_*_zoom = to_array, to_entry_array, to_array_bins, "
                       "to_entry_array_bins, to_array_zoom, to_entry_array_zoom driven as intervals_to_array / entries_to_array drive them "
@@ -355,12 +363,29 @@ class C20(Prop):
                 else:
                     items = [list(x) for x in sorted((lambda a: (a, rng.randint(a + 1, length)))(rng.randrange(length)) for _ in range(rng.randint(1, 3)))]
                 yield self.case(kind, length, items, list(some_queries(length, rng, 40, both if kind else [0]))), ["wig" if kind == 0 else "bed", "sampled24"]
-        # 5. zoom routes (exact = False): model = implementation, no panic
+        # 5. zoom routes (exact = False).  Exhaustive small scope: every level of <= 2 records on <= 4 bases
+        #    (<= 5 thorough) x every range x every bin count x 3 statistics, through both routines
+        for length in range(1, (4 if quick else 5) + 1):
+            for lay in wig_layouts(length, 2):
+                for kind in (2, 3):
+                    vals = VALS8 if kind == 2 else ZVALS8
+                    items = []
+                    for i, (a, b) in enumerate(lay):
+                        mean8 = vals[(i + a + b) % len(vals)]
+                        bases = 1 + (a + i) % (b - a)
+                        lo8 = mean8 - (8 if (a + i) % 2 else 0)
+                        if kind == 3:
+                            lo8 = max(lo8, 0)
+                        items.append([a, b, bases, lo8, mean8 + (16 if (b + i) % 2 else 0), mean8 * bases])
+                    qs = [q for q in all_queries(length, rng, both) if q[2] > 0]
+                    yield self.case(kind, length, items, qs), ["zoom-wig" if kind == 2 else "zoom-bed", "exhaustive", f"len={length}"]
+        #    sampled levels; the bigBed routine mostly on non-negative statistics (what a bigBed level holds)
         for _ in range(600 if quick else 6000):
             length = rng.randint(4, 12 if quick else 24)
             kind = rng.choice([2, 3])
+            vals = ZVALS8 if kind == 3 and rng.random() < 0.8 else VALS8
             qs = [q for q in some_queries(length, rng, 12, both) if q[2] > 0]
-            yield self.case(kind, length, zoom_records(length, rng), qs), ["zoom-wig" if kind == 2 else "zoom-bed"]
+            yield self.case(kind, length, zoom_records(length, rng, vals), qs), ["zoom-wig" if kind == 2 else "zoom-bed"]
 
     def nontrivial(self, case, tags):
         c = parse_sx(case)
